@@ -53,7 +53,7 @@ NEG = {
     "C08": [("moving-window-short-left-window", "MovingWindow", mw_consts(N=6, B=1, LeftWindow="short"), ["ScoreIsDefinition", "Reversal"], "Init", None),
             ("moving-window-weak-exceedance", "MovingWindow", mw_consts(N=6, B=1, Exceed="weak"), ["WhereIsMaximalRuns", "PeakOfRun"], "Init", None)],
     "C10": [(f"lifecycle-{leak}", "Lifecycle", dict(MaxLen=3, Sharing="shared", Tunes="none", Leak=leak, Emit=False, NSlices=1, Slice=0, EmitLen=3),
-             ["NoLeak", "UpdateIsRefit"], "Init", None) for leak in ("cached_scores", "refit_if_unfit", "update_replaces", "keep_on_set")] +
+             ["NoLeak", "UpdateIsRefit"], "Init", None) for leak in ("cached_scores", "refit_if_unfit", "update_replaces", "keep_on_set", "cached_by_index")] +
            [(f"update-merge-{m}", "UpdateMerge", dict(L=4, MaxBatches=3, MergeMode=m, Emit=False, NSlices=1, Slice=0),
              ["UpdateIsFitOnCombined", "LabelsOnceInOrder", "NothingLost", "NewRowsWin"], "Init", None) for m in ("concat", "fastpath", "old_wins")],
     "C11": [(f"representations-{c}", "Representations", dict(N=4, Conv=c, Emit=False), ["ValuesPreserved", "IndexCarried"], "Init", None)
